@@ -19,15 +19,15 @@ Proof. exact okb_spec. Qed.
     (CommitBuilder::write), add_heads (both paths), set_local_bookmark_target (any target,
     conflicted or absent), edit, check_out, remove_workspace (with the implicit abandoning of a
     discardable working-copy commit) and commits, the view written by Transaction::commit
-    satisfies the invariant. Guards: the ids an operation names exist, and add_heads is not asked
-    to add the root commit alone (refuted below). *)
+    satisfies the invariant. Guard: the ids an operation names exist. *)
 Theorem C10_commit_inv_partial : forall s s' : state,
   reach_basic s -> step s OCommit = Ok s' -> Inv (pg (s_g s')) (s_v s').
 Proof. exact commit_inv_basic. Qed.
 
-(** The incremental head update of MutableRepo::add_heads: if every parent of [h] is a head of a
-    normalized head set, inserting [h] and removing its parents gives exactly what
-    View::normalize_heads computes from the set with [h] added. *)
+(** The incremental head update of MutableRepo::add_heads: if [h] has parents and every parent of
+    [h] is a head of a normalized head set (exactly the guard of the code), inserting [h] and
+    removing its parents gives exactly what View::normalize_heads computes from the set with [h]
+    added. *)
 Theorem C10_fast_path : forall (g : dag) (hs : list nat) (h : nat),
   wf_dag g -> sorted hs ->
   hs <> [] /\ antichain g hs /\ (In 0 hs -> hs = [0]) ->
@@ -36,24 +36,25 @@ Theorem C10_fast_path : forall (g : dag) (hs : list nat) (h : nat),
   fold_left (fun hs p => remn p hs) (parents g h) (ins h hs) = heads_of g (remn 0 (ins h hs)).
 Proof. exact fast_path. Qed.
 
-(** The guard [parents g h <> []] is needed: for the root commit the fast path's condition holds
-    vacuously and the committed view keeps the root next to another head. Witness (replayed on
-    the implementation as corpus case 0 of the harness). *)
-Definition root_witness : list op :=
-  [ONew [0] 1 false; OCommit; OAddHeads [0]; OCommit].
-Theorem C10_root_fast_path_refuted :
-  exists s vs, run init_state root_witness [] = (Ok s, vs) /\
-    exists v, In v vs /\ inv_b (pg (s_g s)) v = false.
-Proof.
-  eexists. eexists. split; [vm_compute; reflexivity|].
-  eexists. split; [right; left; reflexivity|vm_compute; reflexivity].
-Qed.
+(** The guard [parents g h <> []] is needed. The code before the repair 3daac52 of /repo did not
+    have it ([add_heads_old]): for the root commit the condition "all parents are heads" holds
+    vacuously, the incremental path inserted the root next to the other heads and left
+    head_normalized set, so that the committed view violated the invariant. Witness: the state
+    after new([root]); commit, then add_heads([root]) with the old guard. (Corpus case 0 of the
+    harness replays it on the implementation: it passes now and fails if the repair is reverted.) *)
+Definition root_witness_prefix : list op := [ONew [0] 1 false; OCommit].
+Theorem C10_root_fast_path_old_refuted :
+  exists s, run_prefix init_state root_witness_prefix 2 = Ok s /\
+    let s' := add_heads_old s [0] in
+    v_norm (s_v s') = true /\ inv_b (pg (s_g s')) (s_v s') = false /\
+    (* the current guard normalizes instead *)
+    inv_b (pg (s_g s)) (s_v (normalize (add_heads s [0]))) = true.
+Proof. eexists. split; [vm_compute; reflexivity|]. vm_compute. auto. Qed.
 
 (** The full statement: all modelled operations, including rewrite / abandon records and
     descendant rebasing (Model/RepoV.v [rebase_descendants]). *)
 Definition C10_full : Prop :=
   forall ops s vs, run init_state ops [] = (Ok s, vs) ->
-    (forall o, In o ops -> o <> OAddHeads [0]) ->
     forall v, In v vs -> Inv (pg (s_g s)) v.
 
 Check C10_okb_spec : forall c : case, okb c = true <-> _.
@@ -73,4 +74,4 @@ Qed.
 Print Assumptions C10_okb_spec.
 Print Assumptions C10_commit_inv_partial.
 Print Assumptions C10_fast_path.
-Print Assumptions C10_root_fast_path_refuted.
+Print Assumptions C10_root_fast_path_old_refuted.
